@@ -796,6 +796,47 @@ class Session(Gen):
         return self
 
 
+def id_lifecycle_cases(rng, chmax, length, stride=1, offset=0, prefix="i"):
+    """EVERY sequence of `length` operations from {open with an automatic id, open id k, close k}
+    on a connection with `channel_max` = chmax (every `stride`-th), a call left in flight on each
+    channel that stays open, then every open channel gets its own, distinguishable reply."""
+    import itertools
+    alpha = ["none"] + ["some%d" % k for k in range(1, chmax + 1)] + ["close%d" % k for k in range(1, chmax + 1)]
+    cases = []
+    for n, seq in enumerate(itertools.product(alpha, repeat=length)):
+        if (n + offset) % stride:
+            continue
+        g = Gen(rng, chmax=chmax, bound=4, via_stream=0.0)
+        al = Alloc(chmax)
+        by_ch = {}
+        for o in seq:
+            if o == "none" or o.startswith("some"):
+                want = None if o == "none" else int(o[4:])
+                got = al.none() if want is None else al.some(want)
+                h = g.open_channel(want)
+                if got is not None:
+                    g.bind_opened(h, got)
+                    by_ch[got] = h
+            else:
+                k = int(o[5:])
+                if k in by_ch:
+                    h = by_ch.pop(k)
+                    g.op("send %s send %s" % (h, hx(amqp.method(k, "channel.close", amqp.close_args(0, ""))))); g.op("ev %d" % k)
+                    g.feed([chan_close_ok(k)]); g.op("recv %s -" % h)
+                    del g.handles[h]
+                    al.remove(k)
+        # a call in flight on every open channel; the replies arrive in reverse order of the ids
+        for k in sorted(by_ch):
+            g.op("send %s send %s" % (by_ch[k], hx(amqp.client_only_samples(k)["queue.declare"]))); g.op("ev %d" % k)
+        for k in sorted(by_ch, reverse=True):
+            g.feed([queue_declare_ok(k, "q-%s" % by_ch[k], k, 100 + k)])
+        for k in sorted(by_ch):
+            g.op("recv %s -" % by_ch[k]); g.op("recv %s -" % by_ch[k])
+        g.op("dump")
+        cases.append(g.case("%s%d" % (prefix, n)))
+    return cases
+
+
 def backlog_cases(rng, kind, n, prefix="b"):
     """A queue towards the client left unread while `n` entries pile up, then everybody is served:
     kind 'consumer' (n deliveries to an idle consumer, then a delivery and a get answer on another
